@@ -92,7 +92,10 @@ def main(tier: str) -> int:
 
     n = 32 if tier == "quick" else 256
     rc = 0
+    only = [p for p in os.environ.get("VERIF_SELFTEST_PROPS", "").upper().split(",") if p]
     for prop, spec in sorted(registry.CHECKS.items()):
+        if only and prop not in only:
+            continue
         mod = importlib.import_module(spec["module"])
         kit.load_celpy()
         bseed = kit.batch_seed()
